@@ -232,6 +232,18 @@ def run(chk, tier, seed):
     if is_error(r2[0]) or is_error(r2[1]) or repr(r2[0]) != repr(r2[1]):
         chk.harness_error("the same case executed in two processes did not give identical observations")
         return
+    # charges published by the extended-Lagrangian path: the same object SCF-evaluated, moved, then XL-evaluated
+    from . import c09 as _c09
+
+    xl_items = [(n_, m_, v, seed) for n_ in (("H2O", "H2CO") if tier == "quick" else ("H2O", "H2CO", "NH3", "CH3OH")) for m_ in ("AM1", "PM3") for v in (("xl",), ("ksa", 2, 1500))]
+    for it, r in zip(xl_items, pmap(_c09.t_fixed_point_energy, xl_items, chunk=1, timeout=900)):
+        kx = f"xl_path|{it[0]}|{it[1]}|{it[2][0]}"
+        if is_error(r) or is_timeout(r) or "moved" not in r:
+            continue
+        chk.case(kx, nontrivial=True, outcome="ok" if r["moved"]["dq_dm"] <= 1e-10 else "stale")
+        if r["moved"]["dq_dm"] > 1e-10:
+            chk.violation(dict(identity="q=Z-trace(dm blocks)", method=it[1], molecule=it[0], path="XL-BOMD evaluation after a move", excited="S0"),
+                          f"{kx}: after an extended-Lagrangian evaluation at a new geometry the published charges differ from Z - diagonal blocks of the published density by {r['moved']['dq_dm']:.2e}", replay={"xl_path": list(it)})  # fmt: skip
     results = pmap(run_case, cases, chunk=16, timeout=900, progress=f"C14 {tier} lattice")
     # an exception on a request that is not a documented rejection is re-executed once in a process of its own before
     # it is believed (DESIGN section 9); if it does not come back the second execution is the observation
@@ -295,6 +307,14 @@ def run(chk, tier, seed):
 
 def replay(payload):
     c = payload["replay"]
+    if isinstance(c, dict) and c.get("xl_path"):
+        from . import c09 as _c09
+
+        it = c["xl_path"]
+        it[2] = tuple(it[2])
+        r = _c09.t_fixed_point_energy(tuple(it))
+        print(r.get("moved"))
+        return r["moved"]["dq_dm"] <= 1e-10
     r = run_case(c)
     if r["status"] != "ok":
         print("  ", r["status"], r.get("msg"), "| expected rejection:", r["expected_rejection"])
